@@ -69,6 +69,9 @@ COMPOSITE_HARNESSES = [comp('vbktx', 'V_VBKTX'), comp('vbkpoptx', 'V_POPTX'), co
 COMPOSITE_HARNESSES[-1]['rungs'] = {'quick': [{'bound': 'PopData with 0..2 context VBK headers (all fields symbolic), 0..2 VTBs and 0..2 ATVs whose embedded transactions keep one symbolic field each (they are decided on their own by v_vbktx .. v_vtb)', 'timeout': 250}],
                                     'thorough': [{'bound': 'as quick', 'timeout': 600}]}
 VALUE_HARNESSES = [val('keystone', 'V_KEYSTONE'), val('ctxinfo', 'V_CTX'), val('authctx', 'V_AUTHCTX'), val('pubdata', 'V_PUBDATA', covers=(1, 2)), val('altblock', 'V_ALTBLOCK')]
-HARNESSES = PRIM_HARNESSES + list(ENTITY_HARNESSES) + VALUE_HARNESSES + COMPOSITE_HARNESSES
+import importlib.util as _ilu
+_sp17 = _ilu.spec_from_file_location('c17spec', os.path.join(os.path.dirname(os.path.abspath(__file__)), '..', 'C17', 'spec.py'))
+_c17 = _ilu.module_from_spec(_sp17); _sp17.loader.exec_module(_c17)
+HARNESSES = PRIM_HARNESSES + list(ENTITY_HARNESSES) + VALUE_HARNESSES + COMPOSITE_HARNESSES + [h for h in _c17.HARNESSES if h['name'] == 'h_reuse']   # a decoded header never keeps the memoised hash of the object it was decoded into
 EXPLANATION = 'Byte-first exploration: the real decoders/encoders/estimateSize of each entity run symbolically on every byte string up to the stated length.'
 ASSUMPTIONS = ['Address/Output: a successful decode needs a 30-character text with a valid SHA-256 checksum, unreachable for short arbitrary strings; only the rejecting paths (incl. base58/base59 encoding of arbitrary bytes) are explored', 'ids and hashes (SHA-256 / vBlake / progpow) are not encoded', 'ATV/VTB/VbkTx/VbkPopTx/PopData as wholes are decided value-first only (v_vbktx .. v_popdata): arbitrary BYTE strings of their size are outside']
